@@ -15,7 +15,7 @@ from ..state import State, Obj, IntV, PtrV, NULL, MAXLEN
 from ..terms import Lin, ZERO
 from .. import bits as B
 from . import own
-from .common import short, fn_loc
+from .common import short, fn_loc, slot_subst, subst, robust
 
 LEVEL = 'proof'
 EXPLANATION = ('constant-table comparison with RFC 4648 and bit-provenance comparison of every table index / output byte computed by the '
@@ -86,6 +86,56 @@ class EncHooks(Hooks):
         if p.obj == 'OUT':
             st.ev('out-store', inst, p.off, nbytes, v)
 
+    def on_access(self, I, st, inst, kind, p, nbytes):
+        if kind == 'load' and p.obj == 'IN' and nbytes == 1:
+            st.ev('in-load', inst, p.off, st.objs['IN'].version)
+
+
+def group_view(s2, f):
+    """The input units read and the output units stored since the last loop head on this path, by position: names of the input-unit
+    atoms (b0, b1, ... by distance from the lowest offset read), that lowest offset, the stores, and how far the next iteration's
+    group lies from this one (input, output) - whatever variables the loop uses to get there."""
+    wi = max([k for k, e in enumerate(s2.events) if e[0] == 'widen' and e[1] == f.name] or [-1])
+    evs = s2.events[wi + 1:]
+    loads = []
+    for e in evs:
+        if e[0] == 'in-load' and (e[2], e[3]) not in loads:
+            loads.append((e[2], e[3]))
+    names, pbase = {}, None
+    if loads:
+        ds = [(off - loads[0][0]) for off, ver in loads]
+        if any(d.t for d in ds):
+            return None
+        lo = min(d.c for d in ds)
+        pbase = loads[0][0] + lo
+        for (off, ver), d in zip(loads, ds):
+            names[('load', 'IN', off, ver, 8)] = 'b%d' % (d.c - lo)
+    stores = [e for e in evs if e[0] == 'out-store']
+    hdrs = [k for k in s2.flags if isinstance(k, str) and k.startswith('hbegin:' + f.name + ':')]
+    adv = None
+    if len(hdrs) == 1 and pbase is not None and stores:
+        b = s2.flags.get(hdrs[0]) or {}
+        e2 = s2.flags.get('hend:' + hdrs[0][7:]) or {}
+        nx = slot_subst(b, e2)
+        pn, qn = subst(pbase, nx), subst(stores[0][2], nx)
+        adv = (None if pn is None else pn - pbase, None if qn is None else qn - stores[0][2])
+    return dict(names=names, pbase=pbase, stores=stores, adv=adv)
+
+
+def check_advance(s2, view, want_in, want_out, what, problems, und):
+    adv = view['adv']
+    if adv is None or adv[0] is None or adv[1] is None:
+        und.append('%s: where the next iteration reads / writes is not expressible over the loop-carried values' % what)
+        return
+    for d, w, nm in ((adv[0], want_in, 'input'), (adv[1], want_out, 'output')):
+        if s2.is_eq0(d - w) is True:
+            continue
+        env = s2.find_model([d - w], lambda v: v[0] != 0) if robust([d]) else None
+        if env is not None or not d.t:
+            problems.append('%s: the next iteration continues %r %s unit(s) further, expected %d' % (what, d, nm, w))
+        else:
+            und.append('%s: %s advance %r not decided' % (what, nm, d))
+
 
 def X(sym, hi, lo):
     return [('x', sym, i) for i in range(lo, hi + 1)]
@@ -113,9 +163,72 @@ def idx_bits(I, st, v, table_obj, names, w):
     return be.lin_bits(sa[0][2], w)
 
 
+def case_split(st, lin, inputs, expect, mask=0xFF, limit=1 << 17):
+    """Finite case analysis of a term that depends only on input units: every assignment of the (8-bit) units is substituted and the term
+    folded to a constant, which is compared with expect(env).  This is an exhaustive split over the unit values (256 per unit), not a run of
+    the library.  Returns (True, None), (False, witness-env) or (None, reason)."""
+    from ..terms import base_atoms, eval_lin
+    try:
+        deps = sorted(base_atoms(lin), key=repr)
+    except Exception as e:
+        return None, 'term not analysable (%s)' % e
+    for a in deps:
+        if a not in inputs:
+            return None, 'depends on %s, which is not an input unit of this group' % (a if isinstance(a, str) else a[0],)
+    if 256 ** len(deps) > limit:
+        return None, 'depends on %d input units: case split too large' % len(deps)
+    env = {}
+
+    def rec(i):
+        if i == len(deps):
+            try:
+                v = eval_lin(lin, env)
+            except KeyError as e:
+                return None, 'operator not evaluable: %s' % (e,)
+            if (v & mask) != (expect(dict((inputs[a], env[a]) for a in deps)) & mask):
+                return False, dict((inputs[a], env[a]) for a in deps)
+            return True, None
+        for b in range(256):
+            env[deps[i]] = b
+            r = rec(i + 1)
+            if r[0] is not True:
+                return r
+        return True, None
+    return rec(0)
+
+
+def enc_unit(I, st, v, table_obj, alphabet, names, want_bits, want_fn):
+    """Is the stored unit v == alphabet[group]?  Bit provenance of the table index first; otherwise a finite case split over the input units.
+    Returns (verdict, detail)."""
+    if not isinstance(v, IntV):
+        return None, 'stored value not tracked'
+    inputs = dict((a, nm) for a, nm in names.items())
+    sa = v.lin.single_atom()
+    if sa is not None and sa[1] == 1 and sa[2] == 0 and isinstance(sa[0], tuple) and sa[0][0] == 'load' and table_obj and sa[0][1] == 'G:' + table_obj:
+        idx = sa[0][2]
+        got = B.BitEval(st, names).lin_bits(idx, 8)
+        if got == want_bits:
+            return True, ''
+        ok, w = case_split(st, idx, inputs, want_fn, mask=(1 << 64) - 1)
+        if ok is True:
+            return True, ''
+        if ok is False:
+            return False, 'indexes the table with [%s], expected [%s]; e.g. input units %s' % (B.fmt(got), B.fmt(want_bits), fmt_units(w))
+        return None, 'table index [%s] not comparable with [%s]: %s' % (B.fmt(got), B.fmt(want_bits), w)
+    ok, w = case_split(st, v.lin, inputs, lambda e: alphabet[want_fn(e)])
+    if ok is True:
+        return True, ''
+    if ok is False:
+        return False, 'is not the alphabet character of its bit group for input units %s' % fmt_units(w)
+    return None, 'not a table read and %s' % w
+
+
+def fmt_units(w):
+    return ', '.join('%s=0x%02X' % (k, v) for k, v in sorted(w.items()))
+
+
 def encoders(run, m, F, E, g):
     n = 0
-    names = dict((inb(k), 'b%d' % k) for k in range(3))
     # hex
     f = [m.func(x) for x in F.lib if m.func(x).dem == '_ST_PRIVATE::hex_encode(char*, void const*, unsigned long)']
     run.need(f, 'hex_encode core not found')
@@ -127,24 +240,27 @@ def encoders(run, m, F, E, g):
     problems = []
     und = []
     if len(its) != 1:
-        problems.append('%d iteration paths' % len(its))
+        und.append('%d iteration paths' % len(its))
     for o in its:
-        stores = [e for e in o.st.events if e[0] == 'out-store']
-        want = [pad(X('b0', 7, 4), 8), pad(X('b0', 3, 0), 8)]
-        if len(stores) != 2:
-            problems.append('%d units stored per byte, expected 2' % len(stores))
+        view = group_view(o.st, f)
+        if view is None or view['pbase'] is None:
+            und.append('the input units read in an iteration are not at fixed distances')
             continue
+        stores, names = view['stores'], view['names']
+        want = [pad(X('b0', 7, 4), 8), pad(X('b0', 3, 0), 8)]
+        if len(stores) != 2 or len(names) != 1:
+            (problems if len(names) == 1 else und).append('%d units stored for %d unit(s) read per iteration, expected 2 for 1' % (len(stores), len(names)))
+            continue
+        fns = [lambda e: e.get('b0', 0) >> 4, lambda e: e.get('b0', 0) & 15]
         for k, (e, w) in enumerate(zip(stores, want)):
-            got = idx_bits(I, o.st, e[4], g['hex_chars'], names, 8)
-            if o.st.is_eq0(e[2] - Lin.atom('outpos') - k) is not True:
-                problems.append('digit %d stored at offset %r' % (k, e[2] - Lin.atom('outpos')))
-            if got is None:
-                und.append('digit %d is not a table read: not analysed' % k)
-            elif got != w:
-                problems.append('digit %d indexes the table with [%s], expected [%s]' % (k, B.fmt(got), B.fmt(w)))
-        adv = deltas(o.st, f)
-        if adv != {'IN': Lin.const(1), 'OUT': Lin.const(2)}:
-            problems.append('iteration advances (input,output) by %s, expected (1,2)' % adv)
+            if o.st.is_eq0(e[2] - stores[0][2] - k) is not True:
+                problems.append('digit %d stored at offset %r, digit 0 at %r' % (k, e[2], stores[0][2]))
+            ok, why = enc_unit(I, o.st, e[4], g['hex_chars'], HEX, names, w, fns[k])
+            if ok is False:
+                problems.append('digit %d %s' % (k, why))
+            elif ok is None:
+                und.append('digit %d: %s' % (k, why))
+        check_advance(o.st, view, 1, 2, 'hex_encode', problems, und)
     n += 1
     run.ob('R14.2', 'hex_encode', False if problems else (None if und else True), problems[0] if problems else (und[0] if und else 'high nibble then low nibble index the digit table; 1 byte in, 2 digits out'), loc=fn_loc(f))
     # base64
@@ -154,6 +270,9 @@ def encoders(run, m, F, E, g):
     GROUP = [pad(X('b0', 7, 2), 8), pad(cat(X('b0', 1, 0), X('b1', 7, 4)), 8), pad(cat(X('b1', 3, 0), X('b2', 7, 6)), 8), pad(X('b2', 5, 0), 8)]
     TAIL2 = [GROUP[0], GROUP[1], pad(cat(X('b1', 3, 0), [0, 0]), 8), '=']
     TAIL1 = [GROUP[0], pad(cat(X('b0', 1, 0), [0, 0, 0, 0]), 8), '=', '=']
+    GROUP_FN = [lambda e: e.get('b0', 0) >> 2, lambda e: ((e.get('b0', 0) & 3) << 4) | (e.get('b1', 0) >> 4),
+                lambda e: ((e.get('b1', 0) & 15) << 2) | (e.get('b2', 0) >> 6), lambda e: e.get('b2', 0) & 63]
+    und = []
     I = Interp(m, F, E, EncHooks())
     st = base(False)
     outs = I.run(I.start(f, [PtrV('OUT'), PtrV('IN'), IntV(64, Lin.atom('n'), 'u')], st))
@@ -165,12 +284,14 @@ def encoders(run, m, F, E, g):
             # "Unexpected bytes left": reachable only if the loop guard were not size > 2
             problems.append('assertion reachable: %s' % (o.info[1] if o.info and len(o.info) > 1 else o.info,))
             continue
-        stores = [e for e in s2.events if e[0] == 'out-store']
+        view = group_view(s2, f)
+        if view is None:
+            und.append('the input units read on a path are not at fixed distances')
+            continue
+        stores, names = view['stores'], view['names']
         if o.kind == 'backedge':
             kind, want = 'group', GROUP
-            adv = deltas(s2, f)
-            if adv.get('IN') != Lin.const(3) or adv.get('OUT') != Lin.const(4):
-                problems.append('full group advances (input,output) by %s, expected (3,4)' % adv)
+            check_advance(s2, view, 3, 4, 'full group', problems, und)
         elif o.kind == 'ret':
             if not stores:
                 seen['empty'] = True
@@ -180,8 +301,6 @@ def encoders(run, m, F, E, g):
             if want is None:
                 problems.append('tail stores %d units with %d \'=\'' % (len(stores), eq))
                 continue
-            # tail forms are entered with exactly 1 / 2 bytes left
-            rem = Lin.atom('n') - Lin.atom('cur')
         else:
             continue
         seen[kind] = True
@@ -193,14 +312,21 @@ def encoders(run, m, F, E, g):
                 if not (isinstance(e[4], IntV) and not e[4].lin.t and e[4].lin.c == 0x3D):
                     problems.append("%s: unit %d is not '='" % (kind, k))
                 continue
-            got = idx_bits(I, s2, e[4], g['b64_chars'], names, 8)
-            if got != w:
-                problems.append('%s: unit %d indexes the alphabet with [%s], RFC 4648 says [%s]' % (kind, k, B.fmt(got) if got else 'not a table read', B.fmt(w)))
+            fn = GROUP_FN[k]
+            if kind == 'tail2' and k == 2:
+                fn = lambda e: (e.get('b1', 0) & 15) << 2
+            if kind == 'tail1' and k == 1:
+                fn = lambda e: (e.get('b0', 0) & 3) << 4
+            ok, why = enc_unit(I, s2, e[4], g['b64_chars'], B64, names, w, fn)
+            if ok is False:
+                problems.append('%s: unit %d %s (RFC 4648 group [%s])' % (kind, k, why, B.fmt(w)))
+            elif ok is None:
+                und.append('%s: unit %d: %s' % (kind, k, why))
     for k in ('group', 'tail1', 'tail2'):
         if k not in seen:
             problems.append('no path for the %s form' % k)
     n += 1
-    run.ob('R14.2', 'b64_encode', not problems, problems[0] if problems else 'full group and both tails regroup the input bits MSB-first into 6-bit indices; \'=\' padding as RFC 4648', loc=fn_loc(f))
+    run.ob('R14.2', 'b64_encode', False if problems else (None if und else True), problems[0] if problems else und[0] if und else 'full group and both tails regroup the input bits MSB-first into 6-bit indices; \'=\' padding as RFC 4648', loc=fn_loc(f))
     return n
 
 
@@ -308,6 +434,32 @@ def decoders(run, m, F, E, g):
             if wi < 0:
                 continue
             evs = s2.events[wi + 1:]
+            # pace: the loop that just completed an iteration moves on nin input units for every len(want) output units
+            # (by position, whatever cursors or indices the loop keeps; nested block loops are judged at every level)
+            hdr = o.info[1] if o.info and o.info[0] == f.name else None
+            hb = s2.flags.get('hbegin:%s:%s' % (f.name, hdr))
+            he = s2.flags.get('hend:%s:%s' % (f.name, hdr))
+            wh = max([k for k, e in enumerate(s2.events) if e[0] == 'widen' and e[1] == f.name and e[2] == hdr] or [-1])
+            st_h = [e for e in s2.events[wh + 1:] if e[0] == 'out-store']
+            tl_h = [e for e in s2.events[wh + 1:] if e[0] == 'table-load' and e[2] == 'G:' + g[tbl]]
+            if hb and he and st_h and tl_h:
+                from ..terms import base_atoms
+                ua = [a for a in base_atoms(tl_h[0][3]) if isinstance(a, tuple) and a[0] == 'load']
+                nx = slot_subst(hb, he)
+                pin = ua[0][2] if len(ua) == 1 else None
+                pn = subst(pin, nx) if pin is not None else None
+                qn = subst(st_h[0][2], nx)
+                if pn is None or qn is None:
+                    und.append('pace of the loop at block %s not expressible over its carried values' % hdr)
+                else:
+                    d = (pn - pin).scale(len(want)) - (qn - st_h[0][2]).scale(nin)
+                    if s2.is_eq0(d) is not True:
+                        env = s2.find_model([d], lambda v: v[0] != 0) if robust([d]) else None
+                        if not d.t or env is not None:
+                            problems.append('one iteration of the loop at line %d moves on %r input unit(s) and %r output byte(s): expected %d input units per %d output byte(s)' % (
+                                next((i.line for i in f.blocks[hdr].insts if i.line), f.line) if hdr is not None else f.line, pn - pin, qn - st_h[0][2], nin, len(want)))
+                        else:
+                            und.append('pace of the loop at block %s (%r in, %r out) not decided' % (hdr, pn - pin, qn - st_h[0][2]))
             stores = [e for e in evs if e[0] == 'out-store']
             tl = [e for e in evs if e[0] == 'table-load' and e[2] == 'G:' + g[tbl]]
             if not stores:
@@ -338,45 +490,81 @@ def decoders(run, m, F, E, g):
     return n
 
 
-def sizes(run, m, F):
+def sizes(run, m, F, E):
+    """R14.3: the allocating encoders size their result as the encoding requires - decided on the term handed to allocate() with the
+    input size symbolic (not on how the arithmetic is spelled); both decoder forms reach one shared core."""
     n = 0
-    for dem, want in (('ST::hex_encode(void const*, unsigned long)', 'mul2'), ('ST::base64_encode(void const*, unsigned long)', 'b64size')):
+    N = Lin.atom('n')
+    oracle = {'ST::hex_encode(void const*, unsigned long)': ('2 * size', N.scale(2)),
+              'ST::base64_encode(void const*, unsigned long)': ('4 * ((size + 2) / 3)', Lin.atom(('udiv', N + 2, Lin.const(3), 64)).scale(4))}
+
+    class SH(Hooks):
+        max_depth = 6
+
+        def call(self2, I, st, inst, name, args):
+            if name is None:
+                return None
+            d = m.dem(name)
+            if re.match(r'^ST::buffer<char>::allocate\(unsigned long\)$', d):
+                st.ev('alloc', inst, I.as_u(st, args[1]) if isinstance(args[1], IntV) else None)
+                return [(st, None)]
+            if d.startswith('_ST_PRIVATE::hex_encode(') or d.startswith('_ST_PRIVATE::b64_encode('):
+                st.ev('core', inst, list(args))
+                return [(st, None)]
+            return None
+    for dem, (text, want) in oracle.items():
         f = [m.func(x) for x in F.lib if m.func(x).dem == dem]
         run.need(f, '%s not found' % dem)
         f = f[0]
         n += 1
-        al = [i for i in f.all_insts() if i.op in ('call', 'invoke') and i.callee and re.match(r'^ST::buffer<char>::allocate\(unsigned long\)$', m.dem(i.callee))]
-        ok = False
-        why = 'allocate() call not found'
-        if len(al) == 1:
-            a = al[0].a[1]
-            d = f.inst(a[1]) if a[0] == 'v' else None
-            if want == 'mul2':
-                ok = d is not None and ((d.op == 'mul' and ['i', 2, 64] in d.a) or (d.op == 'shl' and d.a[1] == ['i', 1, 64])) and ['v', f.sret_index() is not None and 2 or 1] in d.a
-                why = 'result is not sized size*2'
+        I = Interp(m, F, E, SH())
+        st = State()
+        st.rng['n'] = (0, MAXLEN)
+        i = Obj('ext', N)
+        i.lazy = True
+        st.objs['IN'] = i
+        L = own.buffer_layout(m, 'char')
+        ret = own.make_buffer(I, st, L, 'ret', 'undef')
+        args = [PtrV(ret), PtrV('IN'), IntV(64, N, 'u')] if f.sret_index() is not None else [PtrV('IN'), IntV(64, N, 'u')]
+        problems, und = [], []
+        try:
+            outs = I.run(I.start(f, args, st))
+        except Exception as e:          # unmodelled construct on the way: not decided, never a finding
+            outs = []
+            und.append('not interpreted: %s' % (str(e)[:80],))
+        nret = 0
+        for o in outs:
+            if o.kind != 'ret':
+                continue
+            nret += 1
+            s2 = o.st
+            al = [e for e in s2.events if e[0] == 'alloc']
+            if not al and s2.is_eq0(N) is True:
+                continue                # empty input: the empty string, nothing to size
+            if len(al) != 1 or al[0][2] is None:
+                und.append('%d allocate() calls on a returning path' % len(al))
+                continue
+            d = al[0][2] - want
+            if s2.is_eq0(d) is True:
+                continue
+            env = s2.find_model([d], lambda v: v[0] != 0) if robust([d]) else None
+            if env is not None:
+                problems.append('the result is sized %r, the encoding needs %s; e.g. %s' % (al[0][2], text, own.fmt_env(env)))
             else:
-                ok = d is not None and d.op in ('call', 'invoke') and d.callee and m.dem(d.callee).startswith('_ST_PRIVATE::b64_encode_size(')
-                why = 'result is not sized by b64_encode_size(size)'
-        run.ob('R14.3', short(f.dem), ok, 'result sized as the encoding requires' if ok else why, loc=fn_loc(f))
-    # b64_encode_size = ((size + 2) / 3) * 4
-    f = [m.func(x) for x in F.lib if m.func(x).dem == '_ST_PRIVATE::b64_encode_size(unsigned long)']
-    run.need(f, 'b64_encode_size not found')
-    f = f[0]
-    ops = [(i.op, [x for x in i.a if x[0] == 'i']) for i in f.all_insts() if i.op in ('add', 'udiv', 'mul', 'shl')]
-    ok = ops == [('add', [['i', 2, 64]]), ('udiv', [['i', 3, 64]]), ('mul', [['i', 4, 64]])] or \
-        ops == [('add', [['i', 2, 64]]), ('udiv', [['i', 3, 64]]), ('shl', [['i', 2, 64]])]
-    n += 1
-    run.ob('R14.3', 'b64_encode_size', ok, '((size + 2) / 3) * 4' if ok else 'computes %s' % ops, loc=fn_loc(f))
-    # both decoder forms share one core
+                und.append('result size %r not comparable with %s' % (al[0][2], text))
+        if nret == 0 and not und:
+            und.append('no returning path explored')
+        run.ob('R14.3', short(f.dem), False if problems else (None if und else True), problems[0] if problems else (und[0] if und else 'result sized %s' % text), loc=fn_loc(f))
+    # both decoder forms reach one shared core (call graph, any depth)
     for dem, core in (('ST::hex_decode(ST::string const&)', '_ST_PRIVATE::hex_decode('), ('ST::hex_decode(ST::string const&, void*, unsigned long)', '_ST_PRIVATE::hex_decode('),
                       ('ST::base64_decode(ST::string const&)', '_ST_PRIVATE::b64_decode('), ('ST::base64_decode(ST::string const&, void*, unsigned long)', '_ST_PRIVATE::b64_decode(')):
         f = [m.func(x) for x in F.lib if m.func(x).dem == dem]
         run.need(f, '%s not found' % dem)
         f = f[0]
         n += 1
-        callees = [m.dem(t) for (i, ts, k) in F.calls[f.name] for t in ts]
-        ok = sum(1 for c in callees if c.startswith(core)) == 1
-        run.ob('R14.3', short(f.dem), ok, 'decodes through the shared core' if ok else 'does not call %s exactly once' % core, loc=fn_loc(f))
+        reach = F.reachable_from([f.name])
+        ok = any(m.dem(x).startswith(core) for x in reach if x in F.lib)
+        run.ob('R14.3', short(f.dem), True if ok else None, 'decodes through the shared core' if ok else 'does not reach %s: a separate decoder, not analysed here' % core, loc=fn_loc(f))
     return n
 
 
@@ -391,6 +579,6 @@ def check(run):
     run.floor('tables', nt, 4)
     run.floor('encoders', encoders(run, m, F, E, g), 2)
     run.floor('decoders', decoders(run, m, F, E, g), 2)
-    run.floor('size / sharing facts', sizes(run, m, F), 7)
+    run.floor('size / sharing facts', sizes(run, m, F, E), 6)
     for o in run.obs[:6]:
         run.sample(dict(rule=o['rule'], subject=o['subject'], verdict=o['verdict'], detail=o['detail'][:160]))
